@@ -153,7 +153,7 @@ func (e *Engine) callFn(s *State, fr *Frame, fn *ssa.Function, args, bind []Valu
 		fr.PC++
 		return nil
 	}
-	if e.mergeable(fn) && s.InitMode == 0 && e.mergeDepth == 0 {
+	if e.mergeable(fn) && s.InitMode == 0 && s.mergeDepth == 0 {
 		return e.callMerged(s, fr, fn, args, bind, res)
 	}
 	e.pushFrame(s, fn, args, bind, res)
@@ -432,7 +432,8 @@ func (e *Engine) callMerged(s *State, fr *Frame, fn *ssa.Function, args, bind []
 	var others []*State
 	pcBase := pcLen(base)
 	work := []*State{s}
-	e.mergeDepth++
+	s.mergeDepth++
+	base.mergeDepth = s.mergeDepth - 1
 	for len(work) > 0 {
 		w := work[len(work)-1]
 		work = work[:len(work)-1]
@@ -457,7 +458,12 @@ func (e *Engine) callMerged(s *State, fr *Frame, fn *ssa.Function, args, bind []
 		}
 		others = append(others, w)
 	}
-	e.mergeDepth--
+	for _, f := range fins {
+		f.st.mergeDepth--
+	}
+	for _, o := range others {
+		o.mergeDepth--
+	}
 	e.mu.Lock()
 	e.Merged[fnKey(fn)]++
 	e.mu.Unlock()
